@@ -112,6 +112,13 @@ CLAIMED = {
     design_ref="DESIGN.md section 5 C05",
     note="Trusted: TLC, the schedule driver. Statement granularity; phantoms excluded as documented by the property. Shares the open known finding of C04.",
     technique="TLA+ contract spec with ghost dependency graph; acyclicity checked by TLC on every recorded schedule"),
+
+ "C12": dict(
+    category="model_checking",
+    text="The RequestManager specification (request_manager.go + ExecuteSQL; clients with the enqueue / wake-send split, Run loop steps, workers with conflict aborts and re-queueing) is model-checked by TLC for OneReply, ExactlyOnce, WorkerBound and the liveness property Answered under weak fairness (3 clients, capacity 1; thorough: 4 clients, capacity 2, 2 workers) - with the pinned tree's unbuffered reply channel TLC finds the deadlock. On the code: the deadlock schedule is replayed with a gate hook and 103 callers (all must return), and windows of concurrent ExecuteSQL calls from 8 goroutines at GOMAXPROCS 1/4/16 (multi-row reads and conflicting multi-row updates with unique values, inserts of unique keys, a closing read) are recorded as invoke/return histories ordered by a shared atomic counter; TLC decides with silent linearization steps whether each history has a linearization (one result per call, its own; every effect exactly once; multi-row effects atomic; real-time order).",
+    design_ref="DESIGN.md section 5 C12",
+    note="Trusted: TLC, the history recorder. Go scheduling is sampled (seeds x GOMAXPROCS), not enumerated; windows of 160 calls. The Run loop's own event trace (hook H5) is not validated yet.",
+    technique="TLA+ mechanism spec model-checked (safety + liveness); gate-hook replay of the deadlock schedule; TLC linearizability check of recorded concurrent call histories"),
 }
 
 NOT_APPLICABLE = {
